@@ -571,6 +571,8 @@ func concScenario(sc *CScenario, run int) (orderDrift bool) {
 	for _, s := range sc.Init {
 		if s == "s1" {
 			doOp(&Op{Op: "create", Sc: "prov", Name: "s1", Ctx: "val"})
+		} else if s == "s3" {
+			doOp(&Op{Op: "create", Sc: "s2", Name: s, Ctx: "nil"}) // third level: child of s2
 		} else {
 			doOp(&Op{Op: "create", Sc: "s1", Name: s, Ctx: "nil"})
 		}
